@@ -37,7 +37,11 @@ META = {
             "model on a sample incl. the last item), `ties` (exact coincidences: quarter turns |v| == |w| bit for bit, theta == 0.05, "
             "theta == eps, |sigma| == theta, Y == X, p == t), `fresh` (keys first used under inference_mode / no_grad, then backward), "
             "`subclass`, `defdtype` (default dtype x operand dtype: metadata), `signs` (signed / scaled / zero cotangents, alpha of "
-            "either sign), `numpy` (operands over numpy buffers refilled in place). A `local` stream runs every "
+            "either sign), `numpy` (operands over numpy buffers refilled in place). Pass 5: `poison` (forward+backward of every "
+            "operation on single items / all-1 batches between identical batched probes), `huge` (2^17+37; thorough 2^18+1, 2^18+37, "
+            "2^20+1; last n % 2^k items), `lowp` (float16 / bfloat16), `tiny` corpus (rotations 1e-5..1e-11, nearly equal operands, "
+            "cotangents x 2^+-40) and `cotscale`, `defaults` (modjac / jacrev with options omitted on several modules), `callbacks` "
+            "(functions returning their argument / a view / the same output twice), `subprops`. A `local` stream runs every "
             "single Function (all groups, both arguments) on the full ladder. Log / Jinvp inputs are kept away from the "
             "rotation angle pi (> 0.3 rad); Jinvp additionally away from the zero rotation (theta >= 1e-3 — the quantifier's "
             "domain). non-trivial = at least one non-identity leaf; distinct by (program shape, groups, dtype, regime tags)",
